@@ -206,7 +206,36 @@ def alloc_sites(fn):
     return out
 
 
-def size_ok(fn, prog, crate, tree, depth=0):
+def entry_size_ok(fn, prog, crate, tree, site_bb=None):
+    """is the per-entry size handed to ensure_count_in_bound a positive layout constant (or pinned to one)?"""
+    import panics
+    t = fn.expand(tree)
+    while isinstance(t, tuple) and t[0] == 'cast':
+        t = t[2]
+    if t[0] == 'int' and t[1] > 0:
+        return True, 'the constant %d' % t[1]
+    if t[0] == 'call' and re.search(r'SizeWith(<.*>)?>?::size_with$|::size_with$', t[1]):
+        return True, 'size_with of a fixed-layout type'
+    # pinned by a dominating comparison against such a constant, or membership in a literal list of layout sizes
+    if site_bb is not None:
+        raw = tree
+        for rel, g, s in panics.dominating_facts(fn, site_bb):
+            if rel[0] == 'eq':
+                for a, b in ((rel[1], rel[2]), (rel[2], rel[1])):
+                    if panics.same_tree(fn, a, raw) or panics.same_tree(fn, a, t):
+                        ok, why = entry_size_ok(fn, prog, crate, b, None)
+                        if ok:
+                            return True, 'a size equal to ' + why
+            if rel[0] == 'true' and is_call(rel[1], 'contains') and len(rel[1]) == 4:
+                lst = fn.expand(rel[1][2])
+                needle = fn.expand(rel[1][3])
+                if (panics.same_tree(fn, needle, raw) or panics.strip_casts_all(needle) == t) and all((x[0] == 'int' and x[1] > 0) for x in walk(lst) if isinstance(x, tuple) and x and x[0] == 'int'):
+                    if any(isinstance(x, tuple) and x and x[0] == 'array' for x in walk(lst)):
+                        return True, 'a member of a literal list of layout sizes'
+    return False, show(t)[:80]
+
+
+def size_ok(fn, prog, crate, tree, depth=0, site_bb=None):
     """(ok, reason) for an allocation size expression tree"""
     t = fn.expand(tree)
     while isinstance(t, tuple) and t[0] == 'cast':
@@ -226,8 +255,8 @@ def size_ok(fn, prog, crate, tree, depth=0):
         if re.search(r'(::len|::count|::capacity)$', nm):
             return True, '%s of an existing collection' % nm.split('::')[-1]
         if re.search(r'(cmp::min|::min)$', nm) and len(t) == 4:
-            a = size_ok(fn, prog, crate, t[2], depth + 1)
-            b = size_ok(fn, prog, crate, t[3], depth + 1)
+            a = size_ok(fn, prog, crate, t[2], depth + 1, site_bb)
+            b = size_ok(fn, prog, crate, t[3], depth + 1, site_bb)
             if a[0] or b[0]:
                 return True, 'min(..) with a bounded side (%s)' % (a[1] if a[0] else b[1])
         if re.search(r'SizeWith<.*>>::size_with$|::size_with$', nm):
@@ -239,11 +268,24 @@ def size_ok(fn, prog, crate, tree, depth=0):
         if 'ensure_count_in_bound' in s and re.match(r'^\(?(\(Continue\.0 \(trybranch \(minidump::minidump::ensure_count_in_bound|.*\.0$)', s):
             pass
     s = show(t)
-    m = re.match(r'^\(Continue\.0 \(trybranch \((minidump::minidump::ensure_count_in_bound) ', s)
-    if m:
-        return True, 'Ok payload of ensure_count_in_bound (count validated against the buffer length)'
-    if t[0] == 'field' and t[2] in ('0', '1') and show(t[1]).startswith('(Continue.0 (trybranch (minidump::minidump::ensure_count_in_bound '):
-        return True, 'Ok payload of ensure_count_in_bound (count validated against the buffer length)'
+    inner = None
+    if re.match(r'^\(Continue\.0 \(trybranch \((minidump::minidump::ensure_count_in_bound) ', s):
+        inner = t
+    elif t[0] == 'field' and t[2] in ('0', '1') and show(t[1]).startswith('(Continue.0 (trybranch (minidump::minidump::ensure_count_in_bound '):
+        inner = t[1]
+    if inner is not None:
+        # the validation only bounds the count if the per-entry size is a positive layout constant
+        call = None
+        for x in walk(inner):
+            if isinstance(x, tuple) and x and x[0] == 'call' and x[1].endswith('ensure_count_in_bound'):
+                call = x
+                break
+        if call is not None and len(call) >= 6:
+            okz, whyz = entry_size_ok(fn, prog, crate, call[4], site_bb)
+            if okz:
+                return True, 'Ok payload of ensure_count_in_bound (count * %s + offset checked against the buffer length)' % whyz
+            return False, 'ensure_count_in_bound is given a per-entry size that may be 0 (%s): any count passes' % whyz
+        return False, 'ensure_count_in_bound call shape not recognised'
     if t[0] == 'bin' and t[1] in ('Mul', 'Add') and depth < 3:
         a = size_ok(fn, prog, crate, t[2], depth + 1)
         b = size_ok(fn, prog, crate, t[3], depth + 1)
